@@ -468,13 +468,18 @@ def _r5(ctx, rm, pkg):
                 zero = {COEFF[c]: not val for c, val in v.assume.items() if c in COEFF}
                 env0 = {k: 0.0 for k, z in zero.items() if z}
                 cands = []
+                nopen = False           # a hole of the native template that is not understood (neither a coefficient nor the first reactant)
                 for nv, _ in narms:
-                    ntxt, _ = variant_text(nv)
+                    ntxt, nnames = variant_text(nv)
+                    nopen = nopen or any(x is None for x in nnames.values())
                     nz = {COEFF[c]: not val for c, val in nv.assume.items() if c in COEFF}
                     if all(zero.get(k, False) == z for k, z in nz.items()):
                         cands.append(ntxt)
                 if not cands:
                     cands = [variant_text(narms[0][0])[0]]
+                if nopen:
+                    ctx.unrec("R5", key, (v.file, v.line), f"unrecognised hole in the native template for type {tval}: {cands[0][:80]}")
+                    continue
                 try:
                     a = calg.canon_str(txt, {**env_f, **env0})
                     ok = any(a.equiv(calg.canon_str(c, env0)) for c in cands)
